@@ -194,9 +194,11 @@ def make_note_el(note, dur, voice, counter, n_of_staves):
         if note.staff != 1 or n_of_staves > 1:
             etree.SubElement(note_e, "staff").text = "{}".format(note.staff)
 
-    for slur in note.slur_stops:
-        number = range_number_from_counter(slur, "slur", counter)
-
+    # (in the order of their numbers, whatever the order of the note's list:
+    # the written file must not depend on it)
+    for number in sorted(
+        range_number_from_counter(slur, "slur", counter) for slur in note.slur_stops
+    ):
         notations.append(etree.Element("slur", number="{}".format(number), type="stop"))
 
     for slur in note.slur_starts:
